@@ -38,7 +38,16 @@ pub fn collide_case(seed: u64, label: &str, index: u64) -> HistoryCase {
     if r.chance(1, 4) {
         return hist::random_case(seed, label, index, Mix::Schema);
     }
-    let p = collide_profile();
+    let p = if r.chance(1, 8) {
+        Profile {
+            pool: Pool::SuffixClash,
+            n_elem_names: (3, 7),
+            n_attr_names: (3, 8),
+            ..collide_profile()
+        }
+    } else {
+        collide_profile()
+    };
     let mut docs = gen::random_history(&mut r, &p, "c");
     // make repeated parents with empty occurrences likely: append empty twins of some elements
     for d in docs.iter_mut() {
